@@ -188,6 +188,14 @@ pub fn apply_mutation(b: &mut Built, k: usize, f: &Family) -> bool {
 }
 
 thread_local! {
+    static CONTEXT_NOTE: std::cell::RefCell<Option<String>> = const { std::cell::RefCell::new(None) };
+}
+/// free-text context shown in front of `describe()` (e.g. "the graph under check is reverse() of:")
+pub fn set_context_note(s: Option<String>) {
+    CONTEXT_NOTE.with(|c| *c.borrow_mut() = s);
+}
+
+thread_local! {
     static CURRENT_MUTATION: std::cell::Cell<Option<usize>> = const { std::cell::Cell::new(None) };
 }
 
@@ -498,6 +506,10 @@ impl Built {
             Some(k) => format!("{pre}[the graph below was first built WITHOUT the last step, queried by this same check, and then mutated in place by: {}] ", MUTATION_LABELS[k]),
             None => pre,
         };
+        let pre = match CONTEXT_NOTE.with(|c| c.borrow().clone()) {
+            Some(n) => format!("{pre}[{n}] "),
+            None => pre,
+        };
         let route = self.case.split(':').nth(5).and_then(|x| x.parse::<usize>().ok()).map(|no| no / 10).unwrap_or(0);
         let pre = if self.case.starts_with("g:") && route > 0 && route < ROUTE_LABELS.len() { format!("{pre}[built by route {route}: {}] ", ROUTE_LABELS[route]) } else { pre };
         format!(
@@ -556,6 +568,14 @@ impl Built {
 }
 
 pub const CHUNK: u64 = 32;
+/// graphs per fresh thread: 32 for big families; small families and the multiplied ones (primed, histories)
+/// use smaller chunks so that all cores take part (a function of the family only, so replay finds its chunk)
+pub fn chunk_of(fam: &Family) -> u64 {
+    if fam.primed || fam.histories {
+        return 1;
+    }
+    (fam.count() / 48).clamp(4, CHUNK)
+}
 
 /// Re-runs the chunk containing `case` from its start on a fresh thread (same hash environment as
 /// the original run); `f(built, is_target)` is called for every graph up to and including the target.
@@ -567,7 +587,7 @@ where
         Some(x) => x,
         None => return false,
     };
-    let lo = idx - idx % CHUNK;
+    let lo = idx - idx % chunk_of(&fam);
     let want_primer = case_primer(case);
     let r = on_fresh_thread_scoped(hash_seed, || {
         for i in lo..=idx {
@@ -643,7 +663,7 @@ where
     F: Fn(&Built, &mut Counters) -> u64 + Sync,
 {
     let total = fam.count();
-    let chunk: u64 = CHUNK;
+    let chunk: u64 = chunk_of(fam);
     let nchunks = ((total + chunk - 1) / chunk) as usize;
     let done = AtomicU64::new(0);
     let t0 = Instant::now();
